@@ -6,7 +6,7 @@ import hashlib, json, os, subprocess, sys, time, shutil, glob
 
 VERIF = os.path.dirname(os.path.dirname(os.path.abspath(__file__)))
 REPO = os.environ.get("L21_REPO", "/repo")
-WORK = os.path.join(VERIF, ".work")
+WORK = os.environ.get("L21_WORK") or os.path.join(VERIF, ".work")
 DRIVER = os.path.join(VERIF, "driver", "target", "debug", "l21facts")
 MEMBERS = ["gds21", "lef21", "layout21utils", "layout21raw", "layout21tetris", "layout21protos",
            "layout21converters", "layout21"]
